@@ -237,6 +237,18 @@ pub fn tri_case(args: &Args, prop: &str, idx: usize, gen: &CaseGen, c01_seeds: u
     if case.outputs.is_empty() {
         stats.probe("config:empty-output-set", 1);
     }
+    {
+        // which source operations the generated programs contain (cases using the operation at least once)
+        let mut seen = std::collections::BTreeSet::new();
+        for g in &case.prog.graphs {
+            for s in &g.steps {
+                seen.insert(op_kind(&s.op));
+            }
+        }
+        for k in seen {
+            stats.probe(&format!("source-op:{}", k), 1);
+        }
+    }
     if let crate::exec::Oracle::Trunc { wraps, plus_one, exact, scale, all_public, .. } = &c.oracle {
         stats.probe("truncate:elements-exact(or within 1 for general divisor)", exact.get());
         stats.probe("truncate:elements-floor-plus-one", plus_one.get());
@@ -463,7 +475,7 @@ pub fn run_c19(args: &Args) -> i32 {
 pub fn run_c05(args: &Args) -> i32 {
     let t0 = std::time::Instant::now();
     let n = args.cases.unwrap_or(match args.tier {
-        Tier::Quick => 3000,
+        Tier::Quick => 20000,
         Tier::Thorough => 100000,
     });
     // the case index is needed by the generator (exhaustive 8-bit cases come first)
@@ -615,6 +627,23 @@ pub fn dump_replay(rp: &TriReplay) {
                     break;
                 }
             }
+        }
+    }
+}
+
+/// Variant name of an operation (custom operations by their name up to the first parameter).
+pub fn op_kind(op: &ciphercore_base::graphs::Operation) -> String {
+    use ciphercore_base::graphs::Operation;
+    match op {
+        Operation::Custom(c) => {
+            let n = c.get_name();
+            let cut = n.find(|ch: char| ch == '(' || ch == '{' || ch == '-' || ch == ' ').unwrap_or(n.len());
+            format!("Custom:{}", &n[..cut])
+        }
+        o => {
+            let s = format!("{:?}", o);
+            let cut = s.find(|ch: char| ch == '(' || ch == '{' || ch == ' ').unwrap_or(s.len());
+            s[..cut].to_string()
         }
     }
 }
